@@ -6,6 +6,8 @@
    the engines of the other properties under AddressSanitizer. *)
 From Coq Require Import List Arith Bool.
 From Feox Require Import Model.InFlight Proofs.InFlightProofs.
+From Coq Require Import NArith.
+From Feox Require Model.AlignedBuf Proofs.AlignedBufProofs.
 Import ListNotations.
 
 Theorem inflight_invariant_reachable :
@@ -39,13 +41,41 @@ Print Assumptions kernel_referenced_buffer_is_never_freed.
 Theorem only_in_flight_buffers_are_leaked :
   forall evs i,
   let s := ifrun ifinit evs in
-  nth i (bufs s) Owned = Leaked -> nth i (inflight s) false = true.
+  nth i (bufs s) Owned = Leaked -> nth i (inflight s) false = true
+(* aligned allocations (utils/allocator.rs AlignedBuffer, a public safe type): for every requested
+   capacity and every sequence of safe calls, the slice handed out by as_slice / as_mut_slice lies
+   inside the allocation, the advertised capacity covers the request, and the allocation is a
+   whole number of blocks *).
 Proof. exact leaked_only_if_in_flight. Qed.
 Check only_in_flight_buffers_are_leaked :
   forall evs i,
   let s := ifrun ifinit evs in
-  nth i (bufs s) Owned = Leaked -> nth i (inflight s) false = true.
+  nth i (bufs s) Owned = Leaked -> nth i (inflight s) false = true
+(* aligned allocations (utils/allocator.rs AlignedBuffer, a public safe type): for every requested
+   capacity and every sequence of safe calls, the slice handed out by as_slice / as_mut_slice lies
+   inside the allocation, the advertised capacity covers the request, and the allocation is a
+   whole number of blocks *).
 Print Assumptions only_in_flight_buffers_are_leaked.
+
+Theorem aligned_buffer_slices_stay_inside_the_allocation :
+  forall capacity ops,
+  let b := AlignedBuf.ab_run capacity ops in
+  (AlignedBuf.ab_len b <= AlignedBuf.ab_alloc b /\ capacity <= AlignedBuf.ab_cap b /\
+   AlignedBuf.ab_cap b <= AlignedBuf.ab_alloc b /\ AlignedBuf.ab_alloc b mod AlignedBuf.BLOCK = 0)%N.
+Proof. exact AlignedBufProofs.safe_slices_stay_inside_the_allocation. Qed.
+Check aligned_buffer_slices_stay_inside_the_allocation :
+  forall capacity ops,
+  let b := AlignedBuf.ab_run capacity ops in
+  (AlignedBuf.ab_len b <= AlignedBuf.ab_alloc b /\ capacity <= AlignedBuf.ab_cap b /\
+   AlignedBuf.ab_cap b <= AlignedBuf.ab_alloc b /\ AlignedBuf.ab_alloc b mod AlignedBuf.BLOCK = 0)%N.
+Print Assumptions aligned_buffer_slices_stay_inside_the_allocation.
+
+Theorem oversized_set_len_is_refused :
+  forall b n, (AlignedBuf.ab_cap b < n)%N -> AlignedBuf.ab_step b (AlignedBuf.ASetLen n) = (b, AlignedBuf.APanic).
+Proof. exact AlignedBufProofs.oversized_set_len_is_refused. Qed.
+Check oversized_set_len_is_refused :
+  forall b n, (AlignedBuf.ab_cap b < n)%N -> AlignedBuf.ab_step b (AlignedBuf.ASetLen n) = (b, AlignedBuf.APanic).
+Print Assumptions oversized_set_len_is_refused.
 Example abandoned_submission_is_kept_alive :
   let s := ifrun ifinit [Push; Push; MarkInFlight 0; SqPushOk 0; MarkInFlight 1; SqPushOk 1; Complete 1; DropAll] in
   bufs s = [Leaked; Freed] /\ kern s = [true; false].
